@@ -69,3 +69,28 @@ CHECKS["C14"] = {
         {"pkg": "gbnprop", "run": "TestC14Rapid", "checks": (4000, 40000), "shards": (1, 8), "timeout": (900, 5400), "gomaxprocs": [16, 1, 2, 4]},
     ],
 }
+
+CHECKS["C06"] = {
+    "level": "exploration",
+    "rule": ("rapid-generated scenarios in virtual time: clean handshake, then a finite drop/dup/delay script per direction (also bounded by a drawn time limit, with forced tail drops), then a reliable link with round trip "
+             "below the resend and handshake timeouts; all N; static/adaptive timeouts; keepalive off, the mailbox's 5s/7s/3s, or drawn ping/pong; bursts with nothing after them, one-way bursts against a slow reverse trickle, "
+             "chunked and mixed traffic. Oracles: (stall) while data is pending (an accepted message undelivered or a Send blocked) and both ends are open, the gap since the last delivery / Send completion / fault must not exceed "
+             "10 x (resend + handshake timeout (hook, max of both ends, start and end of the gap) + RTT); (closure) without keepalive no Send/Recv may ever fail; with keepalive, after the first failure every endpoint's calls "
+             "fail within ping+pong+bound; (quiescence) after delivery and recovery no non-ping DATA appears for 30-120 virtual seconds. Non-trivial: a fault hit a packet and a retransmission was needed; distinct by scenario JSON."),
+    "assumptions": ["bounded liveness in virtual time with K=10", "transport model vnet.Link", "goroutine schedules sampled"],
+    "units": [
+        {"pkg": "gbnprop", "run": "TestC06Progress", "checks": (4000, 40000), "shards": (1, 16), "timeout": (900, 5400), "gomaxprocs": [16, 1, 2, 4]},
+    ],
+}
+
+CHECKS["C20"] = {
+    "level": "exploration",
+    "rule": ("rapid-generated TimeoutManager histories in virtual time: options (static/adaptive, multiplier, update frequency, boost percent, handshake timeout) and up to 80 events "
+             "Sent(SYN|DATA seq, resent?), Received(SYN|SYNACK|ACK seq|DATA|NACK|FIN), clock advances of 0, 1ns, base-1ns, base, base+1ns, current, ms..hours. After every event the clauses I1-I6 of DESIGN.md 5/C20 "
+             "are evaluated against harness-side bookkeeping (live never-retransmitted samples, last effective boost/recomputation, un-boosted base). "
+             "Non-trivial: a retransmitted sequence number was later sent fresh and acknowledged, or the history contains both a boost and a recomputation; distinct by history."),
+    "assumptions": ["float32 boost arithmetic compared with 1e-5 relative tolerance", "how often a recomputation happens (update frequency) is not pinned"],
+    "units": [
+        {"pkg": "gbnprop", "run": "TestC20TimeoutModel", "checks": (40000, 600000), "shards": (1, 8), "timeout": (600, 3600)},
+    ],
+}
